@@ -14,6 +14,8 @@ declare -A CHECKS=(
  [r5a-m1]="C12" [r5a-m2]="C12" [r5a-m3]="C15" [r5a-m4]="C15" [r5b-m1]="C11 C04" [r5b-m2]="C14" [r5b-m3]="C05" [r5b-m4]="C04"
  [r5c-m1]="C01 C11" [r5c-m2]="C11" [r5c-m3]="C01" [r5c-m4]="C01 C11" [r5d]="C11" [r5e-m1]="C13" [r5e-m2]="C13" [r5e-m3]="C19" [r5e-m4]="C19"
  [r5f-m1]="C12" [r5f-m2]="C12" [r5f-m3]="C14" [r5f-m4]="C12"
+ [r6a-m1]="C14" [r6a-m2]="C14" [r6a-m3]="C19" [r6a-m4]="C13" [r6b-m1]="C01 C11" [r6b-m2]="C11" [r6b-m3]="C01" [r6b-m4]="C04"
+ [r6c-m1]="C12" [r6c-m2]="C12" [r6c-m3]="C15" [r6c-m4]="C15" [r6d-m1]="C01 C11" [r6d-m2]="C11" [r6d-m3]="C11" [r6d-m4]="C11"
  [c15c]="C15" [c15d-m1]="C15" [c15d-m2]="C19 C15" [c15d-m3]="C15" [c19b]="C19" [c19c]="C19" [c05b]="C05" [c04c]="C04"
 )
 for d in seeded/*/; do
@@ -21,5 +23,6 @@ for d in seeded/*/; do
   checks=${CHECKS[$id]:-${CHECKS[$grp]}}
   [ -z "$checks" ] && { echo "no checks for $id"; continue; }
   if grep -q '"status": "obsolete"' $d/meta.json; then echo "$id obsolete, skipped"; continue; fi
+  [ -n "$ONLY" ] && [[ ! "$id" =~ $ONLY ]] && continue
   python3 tools/run_seeded.py $id $checks
 done
